@@ -251,9 +251,10 @@ Definition client_groups (c : Client) : list Z :=
   let suites := client_suites c in
   let tls13 := existsb (fun v => 3 <? v) (st_versions st) in
   let shares := st_shares st in
+  (* TLS 1.3 needs supported_groups whatever the TLS 1.2 key exchanges are (/repo 40ad8d2) *)
   let groups0 :=
-    (if existsb (fun s => memZ s ecdhAllSuites) suites then curves_to_list st 4 else []) ++
-    (if existsb (fun s => memZ s dhAllSuites) suites then st_dhgroups st else []) in
+    (if existsb (fun s => memZ s ecdhAllSuites) suites || tls13 then curves_to_list st 4 else []) ++
+    (if tls13 || existsb (fun s => memZ s dhAllSuites) suites then st_dhgroups st else []) in
   match groups0 with
   | [] => []
   | _ => if tls13 && negb (match shares with [] => true | _ => false end)
@@ -828,11 +829,8 @@ Definition server_hello_stage (s : Server) (ch : CHello) (hello2_len : Z) : res 
                            | None => Ok tt end) ;;
   '(suite, sig) <- server_select_suite s ch v (server_suites s ch v) ;;
   grp <- (if 3 <? v then server_group13 st ch else Ok (0, false)) ;;
-  (* the receive limit is already in force when the second (plaintext) ClientHello arrives *)
-  _ <- (match ch_rsl ch, st_rsl st with
-        | Some _, Some mine => if (3 <? v) && snd grp && (Z.min two14 (mine - 1) <? hello2_len)
-                               then server_alert a_record_overflow else Ok tt
-        | _, _ => Ok tt end) ;;
+  (* /repo 1280376: the advertised record_size_limit no longer applies to the plaintext second
+     ClientHello, so its measured length (hello2_len) has no influence any more *)
   Ok (v, suite, sig, grp).
 
 Definition negotiate (c : Client) (s : Server) : res Outcome :=
